@@ -106,6 +106,12 @@ def run_check(prop, tier, seed):
 
 
 def _run_check(ctx, engine):
+    with common.leanlock():
+        pre = _build_and_audit(ctx, engine)
+    return _run_engine(ctx, engine, *pre)
+
+
+def _build_and_audit(ctx, engine):
     prop = ctx.prop
     # 0. regenerate + build
     build = common.build_lean()
@@ -158,7 +164,11 @@ def _run_check(ctx, engine):
         if not ok:
             raise MachineryError("leanchecker rejected the compiled modules:\n" + log)
         checker_cmd += " && lake env leanchecker " + " ".join(mods)
+    return broken, theorems, gen_ob, checker_cmd, tr_specs
 
+
+def _run_engine(ctx, engine, broken, theorems, gen_ob, checker_cmd, tr_specs):
+    prop = ctx.prop
     # 2. correspondence + oracles
     res = Result()
     known = common.load_known()
